@@ -18,112 +18,29 @@ import random
 import re
 import shutil
 
+import sys
+
 import vp
+
+sys.path.insert(0, os.path.dirname(os.path.abspath(__file__)))
+from _tlcdump import tla_value, read_dump, known as known_findings, mc_dump as _mc_dump   # noqa: E402
 
 KF_ALL = ["KF_RepeatedSignerCounts", "KF_VoteAcceptsFailedVerify", "KF_UnverifiedExtraVoteSigns"]
 STATS = {}
 FRAMES = ["lowview", "nilvals", "nilpid", "orphan_near", "orphan_far"]
 
 
-# ----------------------------------------------------------------------------- known findings
 def known():
-    """known: lines of KNOWN_FINDINGS.txt plus the proposed ones in findings/C14.known (same format)."""
-    out = dict(vp.known_keys("C14"))
-    extra = os.path.join(vp.VERIF, "findings", "C14.known")
-    if os.path.exists(extra) and not os.environ.get("VERIF_NO_PROPOSED_KNOWN"):
-        for line in open(extra):
-            m = re.match(r"known:\s+property=C14\s+(.*?)\s*::\s*(.*)$", line.strip())
-            if m:
-                km = re.search(r"key=(\S+)", m.group(1))
-                if km:
-                    out.setdefault(km.group(1), m.group(2))
-    return out
+    return known_findings("C14")
 
 
-# ----------------------------------------------------------------------------- TLA+ value reader
-_TOK = re.compile(r'\s*(<<|>>|\|->|\[|\]|\{|\}|,|"(?:[^"\\]|\\.)*"|-?\d+|[A-Za-z_][A-Za-z_0-9]*)')
-
-
-def tla_value(text):
-    """Parse a TLA+ value as TLC prints it (sequences, records, sets, strings, integers, booleans)."""
-    toks = _TOK.findall(text)
-    pos = [0]
-
-    def val():
-        t = toks[pos[0]]
-        pos[0] += 1
-        if t == "<<" or t == "{":
-            close = ">>" if t == "<<" else "}"
-            out = []
-            while toks[pos[0]] != close:
-                out.append(val())
-                if toks[pos[0]] == ",":
-                    pos[0] += 1
-            pos[0] += 1
-            return out
-        if t == "[":
-            out = {}
-            while toks[pos[0]] != "]":
-                k = toks[pos[0]]
-                pos[0] += 2          # name |->
-                out[k] = val()
-                if toks[pos[0]] == ",":
-                    pos[0] += 1
-            pos[0] += 1
-            return out
-        if t.startswith('"'):
-            return json.loads(t)
-        if t == "TRUE":
-            return True
-        if t == "FALSE":
-            return False
-        return int(t)
-
-    return val()
-
-
-def read_dump(path):
-    """Yield {var: text} for every state of a TLC -dump file."""
-    cur, var = None, None
-    with open(path) as f:
-        for line in f:
-            if line.startswith("State "):
-                if cur is not None:
-                    yield cur
-                cur, var = {}, None
-            elif line.startswith("/\\ "):
-                var, _, rest = line[3:].partition(" = ")
-                cur[var] = rest
-            elif cur is not None and var is not None and line.strip():
-                cur[var] += line
-    if cur is not None:
-        yield cur
-
-
-# ----------------------------------------------------------------------------- stage 1: MC + dump
 def mc_dump(run, cfg, workers, timeout):
-    """run.tlc_mc with -dump (vp.Run.tlc_mc has no dump option; same bookkeeping, same timeout / metadir
-    handling through run._tlc).  Returns (result record, dump path, kind table)."""
-    d = run._tlc_dir("mc_" + cfg.replace(".cfg", ""), [cfg])
-    rc, out, dt = run._tlc(d, ["-workers", str(workers), "-dump", "states", "-config", cfg, "QC.tla"], timeout)
-    with open(os.path.join(d, "out.txt"), "w") as f:
-        f.write(out)
-    m = re.search(r"(\d+) states generated, (\d+) distinct states found, (\d+) states left", out)
-    dm = re.search(r"depth of the complete state graph search is (\d+)", out)
-    if rc != 0 or not m or "Model checking completed. No error has been found" not in out:
-        vp.log(out[-5000:])
-        raise vp.Undecided("TLC model check of QC.tla/%s did not complete cleanly (rc=%d): the IDEAL specification "
-                           "itself is refuted or TLC failed" % (cfg, rc))
-    res = {"module": "QC.tla", "cfg": cfg, "generated": int(m.group(1)), "distinct": int(m.group(2)),
-           "depth": int(dm.group(1)) if dm else None, "wall_s": round(dt, 1), "complete": int(m.group(3)) == 0}
-    run.cov.setdefault("model_checks", []).append(res)
-    run.cov["states"] = run.cov.get("states", 0) + res["distinct"]
-    run.cov["transitions"] = run.cov.get("transitions", 0) + res["generated"]
+    """Exhaustive model check with a dump of the state space; also returns the kind table TLC printed."""
+    res, dump, out = _mc_dump(run, "QC.tla", cfg, workers, timeout)
     km = re.search(r'<<\s*"KINDTABLE",(.*?)>>\s*>>', out, re.S)
     if not km:
         raise vp.Undecided("kind table not printed by TLC")
-    kinds = tla_value(km.group(1) + ">>")
-    return res, os.path.join(d, "states.dump"), kinds
+    return res, dump, tla_value(km.group(1) + ">>")
 
 
 def cases_from_dump(path, kinds):
@@ -244,9 +161,13 @@ def replay_validate(run, behs, kf, name, batch, par):
                 prog = prog[k:]
             else:
                 prog = [ev]
-            what = ("%s: the real code answered %s where the specification allows only %s; n=%s signs=%s %s" % (
-                div.get("op"), div.get("actres"), div.get("expres"), ev.get("n"), json.dumps(ev.get("signs")),
-                ("observed " + json.dumps(div.get("act"))) if ev.get("op") == "votemsg" else ""))
+            if ev.get("op") in ("collect", "votemsg"):
+                what = ("vote collection, n=%s: after vote message %s the collector holds %s - certified without a quorum of "
+                        "distinct valid member signatures" % (ev.get("n"), json.dumps(ev.get("signs")), json.dumps(div.get("act"))))
+            else:
+                what = ("%s: the real code answered %s where the specification allows only %s; n=%s %s signs=%s" % (
+                    div.get("op"), div.get("actres"), div.get("expres"), ev.get("n"),
+                    ("input=%s sum=%s" % (ev.get("input"), ev.get("sum"))) if ev.get("op") == "thr" else "", json.dumps(ev.get("signs"))))
             run.violation(what, {"property": "C14", "seed": run.seed,
                                  "program": [{k: v for k, v in e.items() if k not in ("obs", "tr", "i", "why", "route", "res")} for e in prog],
                                  "expected_result": div.get("expres"), "actual_result": div.get("actres"),
